@@ -35,7 +35,7 @@ difference below 1e-6 (docstring says "no rounding", the default in the code
 is 6); values of different kinds (bool vs number, text vs number); order of
 rows with equal sort keys when the two key columns differ; where nulls sort;
 a sortby / condition column that is missing from the actual frame but is not
-selected for any check; a column selected only for the order check that is
+selected for the type or data check (whatever else differs); a column selected only for the order check that is
 missing; float32 columns whose values differ by less than 1e-3.
 """
 import itertools
@@ -248,6 +248,13 @@ def verdict(actual, ref, opts):
     O = pick(opts['co'], rnames)
     X = pick(opts['cx'], anames)
     fails, unspec = set(), set()
+
+    # a sort requested on a column the actual frame does not have, and that
+    # is selected neither for the type nor for the data check: the request
+    # cannot be carried out and nothing says what must happen then
+    for k in sort_columns(opts['sort'], rnames):
+        if k not in acols and k not in T and k not in D:
+            return (UNSPEC, ['sort-column-missing-unchecked'])
 
     # same columns
     for c in rnames:
